@@ -2,6 +2,7 @@
 
 import importlib
 import json
+import os
 import sys
 import traceback
 
@@ -23,6 +24,7 @@ def main():
             except Exception:
                 res = {"harness_error": traceback.format_exc()}
             res["_i"] = case.get("_i", 0)
+            res["_world"] = os.environ.get("VERIF_KERNEL_WORLD", "S")
             out.write(json.dumps(res, default=jdefault) + "\n")
             out.flush()
 
